@@ -1,6 +1,146 @@
-/-! line-protocol handlers (stub: filled in when the suite is built) -/
-namespace Apko.Driver.Confine
+import Apko.Model.Confine
+/-! line-protocol handlers for corr:confine (property C18)
 
-def handle (_args : List String) : Option String := none
+* `cf.san <base> <p>` / `cf.arch <d> <t>`            lexical vetting: `ok <v>` | `tainted`
+* `cf.link <base> <old>`                              `dirFS.Link` target test: `ok` | `outside`
+* `cf.url <root> <path> <esc>`                        `cachePathFromURL`: `ok <file>` | `err`
+* `cf.pkgdir <root> <path> <esc>`                     `cacheDirForPackage`
+* `cf.etag none|empty|val <value>`                    `etagFromResponse`: `ok <etag>` | `none`
+* `cf.etagfile <cacheFile> <etag>`                    `cacheFileFromEtag`: `ok <file>` | `err`
+* `cf.cachedir <cacheFile>`                           `cacheDirFromFile`
+* `cf.keyfile <element>` / `cf.cgkey <kid>`           file a key is stored under
+* `cf.keyname <name>`                                 `parseRepositoryIndex` key-name test: `ok` | `reject`
+* `cf.dirfs <op>… GO=<go>`                            a sequence of `dirFS` calls in the canary tree; answer
+      `r1/diff1;r2/diff2;…` (result class and outside diff per call), verdict = no outside diff in Go's answer
+* `cf.effect <why> <lexical 0|1> <diff>`              oracle only (apko-level cases): pass iff the diff is empty
+
+All strings are hex.  Ops: `method,name,old,data,flag,perm,mtime,uid,gid,dev`.
+-/
+namespace Apko.Driver.Confine
+open Apko Apko.Path Apko.Confine
+
+def parseNat (s : String) : Nat := s.toList.foldl (fun a c => a * 10 + (c.toNat - 48)) 0
+def parseInt (s : String) : Int :=
+  match s.toList with
+  | '-' :: r => - (Int.ofNat (r.foldl (fun a c => a * 10 + (c.toNat - 48)) 0))
+  | r => Int.ofNat (r.foldl (fun a c => a * 10 + (c.toNat - 48)) 0)
+
+def triple (impl spec cls : String) : String :=
+  impl ++ "\t" ++ spec ++ "\t" ++ (if impl = spec then "-" else cls)
+
+def optS (tag : String) : Option Text → String
+  | none => tag
+  | some v => "ok " ++ hexS v
+
+/-- component-level confinement: the (cleaned) components of `root` are a prefix of those of `v`,
+and `v` has no `..` component left -/
+def withinC (root v : Text) : Bool :=
+  let r := parts (clean root)
+  let c := parts v
+  r.isPrefixOf c && !(c.contains dotdot)
+
+def methodOf : String → Option Method
+  | "readlink" => some .readlink | "open" => some .open_ | "openfile-create" => some .openFileCreate
+  | "openfile" => some .openFileNoCreate | "openreaderat" => some .openReaderAt | "stat" => some .stat
+  | "lstat" => some .lstat | "create" => some .create | "remove" => some .remove | "readdir" => some .readDir
+  | "readfile" => some .readFile | "writefile" => some .writeFile | "readnod" => some .readnod
+  | "link" => some .link | "symlink" => some .symlink | "mkdirall" => some .mkdirAll | "mkdir" => some .mkdir
+  | "chmod" => some .chmod | "chown" => some .chown | "chtimes" => some .chtimes | "mknod" => some .mknod
+  | "setxattr" => some .setXattr | "getxattr" => some .getXattr | "removexattr" => some .removeXattr
+  | "listxattrs" => some .listXattrs
+  | _ => none
+
+def parseOp (s : String) : Option (Method × Call) :=
+  match s.splitOn "," with
+  | [m, name, old, data, flag, perm, mtime, uid, gid, dev] =>
+    match methodOf m with
+    | none => none
+    | some m0 =>
+      let flag := parseNat flag
+      -- `OpenFile` is one Go method: the model splits it by O_CREATE
+      let m1 := if m0 = .openFileNoCreate ∧ FS.oCreate flag then .openFileCreate
+                else if m0 = .openFileCreate ∧ !FS.oCreate flag then .openFileNoCreate else m0
+      some (m1, { name := unhexS name, old := unhexS old, data := unhexS data, flag := flag, perm := parseNat perm,
+                  mtime := parseInt mtime, uid := parseNat uid, gid := parseNat gid, dev := parseNat dev })
+  | _ => none
+
+def seqS (rs : List (Res × List String × Bool)) : String :=
+  ";".intercalate (rs.map fun r => resS r.1 ++ "/" ++ ",".intercalate r.2.1)
+
+/-- does Go's answer `r1/diff1;r2/diff2` report any outside effect? -/
+def goHasEffect (go : String) : Bool :=
+  (go.splitOn ";").any fun r => match r.splitOn "/" with
+    | _ :: d :: _ => d ≠ ""
+    | _ => false
+
+def handle (args : List String) : Option String :=
+  match args with
+  | ["cf.san", b, p] =>
+    let r := optS "tainted" (sanitizePath (unhexS b) (unhexS p))
+    some <| triple r r "unlisted"
+  | ["cf.arch", d, t] =>
+    let r := optS "tainted" (sanitizeArchivePath (unhexS d) (unhexS t))
+    some <| triple r r "unlisted"
+  | ["cf.link", b, o] =>
+    let r := if linkTargetOK (unhexS b) (unhexS o) then "ok" else "outside"
+    some <| triple r r "unlisted"
+  | ["cf.url", root, path, esc] =>
+    let root := unhexS root
+    let impl := cachePathFromURL root (unhexS path) (unhexS esc)
+    let spec := match impl with
+      | some v => if withinC root v then impl else none
+      | none => none
+    some <| triple (optS "err" impl) (optS "err" spec) "unlisted"
+  | ["cf.etag", kind, v] =>
+    let hdr : Option (List Text) := match kind with
+      | "none" => none | "empty" => some [] | _ => some [unhexS v]
+    let impl := etagFromResponse hdr
+    let spec := match impl with
+      | some e => if e.all (fun c => b32Alphabet.contains c || c = '=') then impl else none
+      | none => none
+    some <| triple (optS "none" impl) (optS "none" spec) "unlisted"
+  | ["cf.etagfile", cf, etag] =>
+    let cf := unhexS cf
+    let impl := cacheFileFromEtag cf (unhexS etag)
+    let spec := match impl with
+      | some v => if withinC (etagDir cf) v then impl else none
+      | none => none
+    some <| triple (optS "err" impl) (optS "err" spec) "unlisted"
+  | ["cf.cachedir", cf] =>
+    let r := hexS (cacheDirFromFile (unhexS cf))
+    some <| triple r r "unlisted"
+  | ["cf.keyfile", e] =>
+    let v := keyringFile (unhexS e)
+    let impl := hexS v
+    let spec := if withinC (T "etc/apk") v then impl else "escape"
+    some <| triple impl spec "unlisted"
+  | ["cf.cgkey", kid] =>
+    let v := chainguardKeyFile (unhexS kid)
+    let impl := hexS v
+    some <| triple impl impl "unlisted"
+  | ["cf.keyname", k] =>
+    let r := if keyNameOK (unhexS k) then "ok" else "reject"
+    some <| triple r r "unlisted"
+  | "cf.dirfs" :: rest =>
+    match rest.reverse with
+    | go :: opsR =>
+      let go := (go.drop 3).toString
+      match (opsR.reverse.map parseOp).foldr (fun o acc => match o, acc with
+          | some x, some l => some (x :: l) | _, _ => none) (some []) with
+      | none => none
+      | some ops =>
+        let rs := runSeq ops
+        let impl := seqS rs
+        let bad := goHasEffect go
+        -- F18c: every host path handed to os.* was lexically inside the root; the escape is physical
+        -- (an on-disk symlink or a hard link created earlier in the sequence was followed)
+        let cls := if rs.all (fun r => r.2.2) then "F18c" else "unlisted"
+        some (impl ++ "\t" ++ (if bad then "fail:outside-effect" else "pass") ++ "\t" ++ (if bad then cls else "-"))
+    | [] => none
+  | ["cf.effect", why, lexical, diff] =>
+    let bad := diff ≠ ""
+    let cls := if lexical = "1" then "F18c" else "unlisted"
+    some ("-\t" ++ (if bad then "fail:" ++ why else "pass") ++ "\t" ++ (if bad then cls else "-"))
+  | _ => none
 
 end Apko.Driver.Confine
